@@ -585,6 +585,58 @@ def conv_group_slices(res, tier, okx):
     return {"cases": len(model)}
 
 
+def stride_folds(res, tier, okx):
+    """translation validation of fixup_strided_conv against props/C01.v width_folded_convolution_is_strided_convolution: for
+    every fold the real function performs, the folded kernel must be the source kernel padded with the weights' zero point
+    (located by the worker), and model/Rewrites.v fold_conditions - evaluated by the extracted model with Vela's own SAME
+    padding computation before and after - must hold"""
+    import tempfile
+    n = 200 if tier == "quick" else 4000
+    rng = random.Random("c01fold/%d" % vlib.seed())
+    cases = []
+    while len(cases) < n:
+        sw = rng.choice([2, 3, 4, 4, 5, 6, 8])
+        c = rng.choice([1, 2, 3, 4, 8])
+        kw = rng.choice([1, 2, 3, 4, 5, 7, 8])
+        w = rng.choice([sw * rng.randrange(2, 7), sw * rng.randrange(2, 7), rng.randrange(8, 40)])
+        same = rng.randrange(2)
+        if not same and w < kw + sw:
+            continue
+        cases.append([rng.randrange(3, 7), w, c, rng.choice([4, 8]), rng.choice([1, 3]), kw, sw, same, 1 if rng.random() < 0.3 else 0])
+    tmp = tempfile.mkdtemp(prefix="c01fold_", dir=vlib.BUILD)
+    cj, oj = os.path.join(tmp, "cases.json"), os.path.join(tmp, "out.json")
+    json.dump(cases, open(cj, "w"))
+    p = subprocess.run([vlib.PY, os.path.join(vlib.ROOT, "tools", "rewrite_worker.py"), cj, oj, "stridefold"], env=vlib.py_env({"VERIF_TMP": tmp}),
+                       capture_output=True, text=True, timeout=3000)
+    if p.returncode != 0 or not os.path.exists(oj):
+        res.violation({"machinery": "rewrite worker (stridefold)"}, {"stderr": p.stderr[-1500:]},
+                      "C01: fixup_strided_conv could not be run on generated convolutions", no_input=True)
+        return {"cases": 0}
+    impl = json.load(open(oj))
+    shutil.rmtree(tmp, ignore_errors=True)
+    folded = [(c, o) for c, o in zip(cases, impl) if o["folded"]]
+    model = models.run("fold_check", [[c[7], c[1], c[6], c[5], o["n"], o["s"], max(o["l"], 0), max(o["r"], 0)] for c, o in folded]) if okx and folded else []
+    bad = 0
+    stats = collections.Counter()
+    for (c, o), m in zip(folded, model):
+        stats["SAME" if c[7] else "VALID", "kernel padded" if (o["l"] + o["r"]) else "kernel as is", "zero point" if o["zp"] else "zp 0"] += 1
+        explicit = "EXPLICIT" in o["padding"]          # (a one-column / one-row OFM: the function then fixes the padding it computed before the fold)
+        ifm_ok = o["ifm"][2] * o["n"] == c[1] and o["ifm"][3] == c[2] * o["n"]
+        ok = o["l"] >= 0 and ifm_ok and (m[0] == 1 or explicit)
+        if not ok and bad < 5:
+            bad += 1
+            res.violation({"kind": "stride_fold", "case": c},
+                          {"case [h, w, c, oc, kh, kw, stride_w, SAME, uint8]": c, "implementation": o,
+                           "model [conditions hold, hardware padding before, after (folded positions)]": m},
+                          "C01: fixup_strided_conv folds a %d-wide map with kernel width %d and stride %d (%s) by %d: %s "
+                          "(props/C01.v width_folded_convolution_is_strided_convolution / fold_conditions_sound)" % (
+                              c[1], c[5], c[6], "SAME" if c[7] else "VALID", o["n"],
+                              "the folded kernel is not the source kernel padded with the weights' zero point" if o["l"] < 0 else
+                              "the folded IFM is not the source IFM" if not ifm_ok else
+                              "the conditions under which the folded operator is proved to equal the source do not hold"))
+    return {"cases": len(cases), "folded": len(folded), "kinds": {" / ".join(k): v for k, v in sorted(stats.items())}}
+
+
 def run(tier):
     res = vlib.Result("C01", tier, "other")
     b = vlib.build_property("C01")
@@ -595,6 +647,7 @@ def run(tier):
     rw_cov["pad_splits"] = pad_splits(res, tier, okm and b["ok"])
     rw_cov["avgpool_kernels"] = avgpool_kernels(res, tier, okm and b["ok"])
     rw_cov["conv_group_slices"] = conv_group_slices(res, tier, okm and b["ok"])
+    rw_cov["stride_folds"] = stride_folds(res, tier, okm and b["ok"])
     n = 470 if tier == "quick" else 3400
     max_macs = 1200000 if tier == "quick" else 30000000
     rng = random.Random("c01/%d" % vlib.seed())
